@@ -1,4 +1,5 @@
 import hashlib
+from copy import copy
 from datetime import datetime
 from functools import wraps
 
@@ -61,6 +62,9 @@ class Settings:
 
     def _updateall(self, iterable):
         for key, value in iterable:
+            if isinstance(value, (list, dict)):
+                # never alias a container the caller may change later
+                value = copy(value)
             setattr(self, key, value)
 
     def replace(self, mod_settings=None, **kwds):
